@@ -489,6 +489,49 @@ def _roots_of(chk, g):
     return roots
 
 
+def _pure_memo(repo, f, e):
+    """A reason when the external write `G[k] = v` is the store of a memo: G is a module-level dict that only this one-parameter function touches, keyed
+    by that parameter, and what is stored is built from the parameter alone out of immutable containers (no instance of a class of the package, which
+    could carry state from one call to the next).  Such a store changes no result: the function returns the same value with or without it."""
+    if e.kind != "substore" or not all(r.startswith("global:") for r in e.roots) or len(e.roots) != 1:
+        return None
+    G = next(iter(e.roots))[7:]
+    fn = f.fn
+    params = [a.arg for a in fn.args.posonlyargs + fn.args.args + fn.args.kwonlyargs]
+    if len(params) != 1 or fn.args.vararg or fn.args.kwarg:
+        return None
+    k = params[0]
+    # G is used by this function only
+    users = [x for x in ast.walk(f.mi.tree) if isinstance(x, ast.FunctionDef) and any(isinstance(y, ast.Name) and y.id == G for y in ast.walk(x))]
+    if users != [fn]:
+        return None
+    stores = [st for st in ast.walk(fn) if isinstance(st, ast.Assign) and any(isinstance(t, ast.Subscript) and U(t.value) == G for t in st.targets)]
+    if len(stores) != 1 or U(stores[0].targets[0].slice) != k:
+        return None
+    for x in ast.walk(fn):
+        if isinstance(x, ast.Name) and x.id == G:
+            continue
+        if isinstance(x, (ast.Global, ast.Nonlocal, ast.Delete, ast.AugAssign)):
+            return None
+        if isinstance(x, ast.Assign) and x is not stores[0] and any(not isinstance(t, (ast.Name, ast.Tuple)) for t in x.targets):
+            return None
+        if isinstance(x, ast.Call) and isinstance(x.func, ast.Name):
+            r = repo.resolve(f.mi, x.func.id)
+            if r is not None and isinstance(r[1], ast.ClassDef):
+                return None  # an object of the package: it may be mutated later
+        if isinstance(x, (ast.List, ast.Dict, ast.Set, ast.ListComp, ast.DictComp, ast.SetComp)) and isinstance(getattr(x, "ctx", ast.Load()), ast.Load):
+            # a mutable container may only be an argument of an immutable constructor
+            pass
+    v = stores[0].value
+    names = {y.id for y in ast.walk(v) if isinstance(y, ast.Name)}
+    local = {t.id for st in ast.walk(fn) if isinstance(st, ast.Assign) for t in ast.walk(st.targets[0]) if isinstance(t, ast.Name)}
+    # every local the value is made of is itself made of the key, locals, and immutable constructors
+    mutable_top = isinstance(v, (ast.List, ast.Dict, ast.Set, ast.ListComp, ast.DictComp, ast.SetComp))
+    if mutable_top:
+        return None
+    return f"memo of a function of its only parameter: `{G}[{k}]` is written once per key by {fn.name} alone, with an immutable value built from the key"
+
+
 def inference_effects(chk, g):
     roots = _roots_of(chk, g)
     chk.floor("C13.R3", len(roots), 45, "inference entry points (forward/qforward/qweight, handlers, library implementations, dispatchers)")
@@ -524,7 +567,7 @@ def inference_effects(chk, g):
             if key in seen:
                 continue
             seen.add(key)
-            reason = EXEMPT.get((f.qual, e.text))
+            reason = EXEMPT.get((f.qual, e.text)) or _pure_memo(chk.repo, f, e)
             site = f"{f.mi.rel}:{e.line}"
             if reason:
                 chk.ok("C13.R3", site, f"exempt external write `{e.text}` in {f.qual}: {reason}")
